@@ -169,6 +169,18 @@ def shard(s):
                     for pos in range(len(h) + 1):
                         yield {"kind": "string", "s": h[:pos] + c + h[pos:], "codepoint": cp}
         gen = g()
+    elif kind == "longs":
+        base = "MKVLAAGIDESTYPWFRNQHC"
+        def g2():
+            for n in (130, 300):
+                w = (base * (n // len(base) + 1))[:n]
+                yield {"kind": "string", "s": w}
+                yield {"kind": "string", "s": w.lower()}
+                yield {"kind": "string", "s": " ".join(w[i:i + 10] for i in range(0, n, 10)) + "\n"}
+                yield {"kind": "string", "s": "\n".join(w[i:i + 60].lower() for i in range(0, n, 60))}
+                yield {"kind": "string", "s": w[:n // 2] + "X" + w[n // 2:]}
+                yield {"kind": "string", "s": w + " 1"}
+        gen = g2()
     else:
         gen = ({"kind": "nonstring", "index": i} for i in range(len(NONSTR)))
     for case in gen:
@@ -206,6 +218,7 @@ def run(tier, seed, t0):
     step = 0x40 if tier == "quick" else 0x400
     shards += [("insert", lo, min(top, lo + step)) for lo in range(0, top, step)]
     shards.append(("nonstring",))
+    shards.append(("longs",))
     shards += [("crosstalk", "files-first"), ("crosstalk", "strings-first")]
     shards = [s for s in shards if s[0] != "empty"]
     shards.sort(key=lambda s: -(s[1] if s[0] == "words" else 3))
